@@ -167,7 +167,15 @@ class Sys(e1.TimedSys):
                     m.live[key] = None if ttl == INF else now + ttl
                     regd = {ln for ln, on in m.registered.items() if on and FILTER[ln](sname)}
                     m.arrived.setdefault(key, set()).update(regd)
-            data = refcodec.sd_message(sess, entries, reboot=flag, unicast=uflag)
+            # the options array holds A and B once; every entry refers to it (so that an entry repeated in a message is
+            # repeated byte for byte, as a sender that packs its options once would send it)
+            raw = []
+            for kind, s0, s1, s2, ttl, s3, r1, r2 in entries:
+                raw.append(dict(type=refcodec.ENTRY_CODES[kind], i1=0, i2=1 if r2 else 0, n1=len(r1), n2=len(r2),
+                                service=s0, instance=s1, major=s2, ttl=ttl, last=s3))
+            anyopt = any(e["n1"] for e in raw)
+            payload = refcodec.enc_sd((0x80 if flag else 0) | (0x40 if uflag else 0), raw, [OPT_A, OPT_B] if anyopt else [])
+            data = refcodec.enc_someip(0xFFFF, 0x8100, 0, sess, 1, 2, 0, payload)
             self.prot.datagram_received(data, SRC[src], bool(mc))
         elif act[0] == "watch":
             m.registered["L2"] = True
